@@ -44,6 +44,10 @@ type scase struct {
 	// Again: the first comparison is made a second time, with the same actual
 	// content against the same golden entry
 	Again bool `json:"again,omitempty"`
+	// Spell: the golden entries are named g<i>+Spell in the archive, where Spell
+	// is a variable reference that expands to nothing when the archive is
+	// unpacked ("$exe" on this platform, "${nosuchvar}"); the script says g<i>
+	Spell string `json:"spell,omitempty"`
 }
 
 func (c scase) String() string {
@@ -53,6 +57,9 @@ func (c scase) String() string {
 	var p []string
 	if c.Dup {
 		p = append(p, "duplicate-entry-name")
+	}
+	if c.Spell != "" {
+		p = append(p, "entries-named-g<i>"+c.Spell)
 	}
 	for _, l := range c.Lines {
 		m := "mismatch"
@@ -126,9 +133,9 @@ func build(c scase) (string, bool) {
 			fmt.Fprintf(&script, "mkgolden ../outside%d %v %d\nemit stdout %d\ncmp stdout ../outside%d\n", i, l.Match, l.Content, l.Content, i)
 		}
 		if l.Kind != "outside" {
-			files = append(files, txtar.File{Name: g, Data: []byte(golden)})
+			files = append(files, txtar.File{Name: g + c.Spell, Data: []byte(golden)})
 		} else {
-			files = append(files, txtar.File{Name: g, Data: []byte("decoy, never compared\n")})
+			files = append(files, txtar.File{Name: g + c.Spell, Data: []byte("decoy, never compared\n")})
 		}
 		files = append(files, txtar.File{Name: fmt.Sprintf("mid%d", i), Data: []byte(fmt.Sprintf("untouched %d\n> keep\n", i))})
 	}
@@ -228,7 +235,7 @@ func verify(dir, file, text string, c scase, res *tsh.Result, st *counters) stri
 	updates := map[string]string{}
 	unquotable := false
 	for i, l := range c.Lines {
-		g := fmt.Sprintf("g%d", i)
+		g := fmt.Sprintf("g%d", i) + c.Spell
 		act := contents[l.Content]
 		equal := l.Match
 		if wantFail {
@@ -505,6 +512,15 @@ func realMain() {
 			}
 		}
 	}
+	// entry names that hold a variable reference
+	for _, sp := range []string{"$exe", "${nosuchvar}"} {
+		for _, a := range dupLines {
+			cases = append(cases, scase{Lines: []cmpLine{a}, Spell: sp})
+			for _, b := range dupLines {
+				cases = append(cases, scase{Lines: []cmpLine{a, b}, Spell: sp})
+			}
+		}
+	}
 	for _, a := range dupLines {
 		cases = append(cases, scase{Lines: []cmpLine{a}, Dup: true})
 		for _, b := range dupLines {
@@ -560,7 +576,7 @@ func realMain() {
 	wg.Wait()
 	r.Set("evaluations", done)
 	r.Set("distinct_nontrivial", st.updated)
-	r.Set("rule", "every script with 1 or 2 comparison lines (thorough: 3 over a reduced alphabet) from 7 kinds (cmp stdout / stderr / file against an archive golden, the same golden through another path spelling, negated cmp, cmpenv, cmp against a file outside the archive) x 14 actual contents (empty, no final newline, marker lines, a CRLF marker line, lines that start like a marker but are none, quoted-looking, CRLF, unquotable) x golden matching or not; untouched entries before, between and after; batches of two scripts in one RunT call; archives that repeat the first golden's name; scripts ended early by stop after the comparisons; scripts that make their first comparison twice. non-trivial = golden entries actually rewritten and verified, counted")
+	r.Set("rule", "every script with 1 or 2 comparison lines (thorough: 3 over a reduced alphabet) from 7 kinds (cmp stdout / stderr / file against an archive golden, the same golden through another path spelling, negated cmp, cmpenv, cmp against a file outside the archive) x 14 actual contents (empty, no final newline, marker lines, a CRLF marker line, lines that start like a marker but are none, quoted-looking, CRLF, unquotable) x golden matching or not; untouched entries before, between and after; batches of two scripts in one RunT call; archives that repeat the first golden's name; scripts ended early by stop after the comparisons; scripts that make their first comparison twice; golden entries whose archive name holds a variable reference ($exe, ${nosuchvar}) that expands to nothing. non-trivial = golden entries actually rewritten and verified, counted")
 	r.Set("golden_entries_rewritten_and_verified", st.updated)
 	r.Set("of_which_quoted", st.quoted)
 	r.Set("entries_verified_untouched", st.untouched)
